@@ -199,7 +199,7 @@ class ForSys():
         for vertex_id in list(set(vertex_to_delete)):
             del self.frames[frame_number].vertices[vertex_id]
 
-        del self.frames[0].cells[cell_id]
+        del self.frames[frame_number].cells[cell_id]
 
         self.frames[frame_number] = fsframes.Frame(frame_number, 
                                                    self.frames[frame_number].vertices, 
